@@ -1862,6 +1862,91 @@ func c09r19(c *Ctx, r *Report) {
 	r.floor("cursor positions computed as label + offset", n, 1)
 }
 
+// c17r26: parseActionList recognises an action with an argument on the LOWER-CASED spec and then cuts the
+// argument out of the ORIGINAL spec at the length of the leading name. The two agree only if lower-casing did not
+// change the length of the name — `İ` (two bytes) lower-cases to `i` (one byte) and is not matched by the name
+// pattern in the original (D82: `prİnt(hello)` was bound as print with the argument `\xb0nt(hello`).
+func c17r26(c *Ctx, r *Report) {
+	l := c.L
+	r.rule("C17-R26", "A (the offset taken from the original spelling is checked against the lower-cased one)", "P1",
+		"in parseActionList, every character of the original spec that is read at the index len(<name pattern>.FindString(spec)) is dominated by a branch on a comparison of that length with the length of the same pattern's match in strings.ToLower(spec)",
+		"an action name written with a character whose lower-case form has another length is bound with a garbage argument instead of being rejected")
+	fn := l.Fn("fzf", "parseActionList")
+	if fn == nil {
+		r.unest("anchors", token.NoPos, nil, "anchor parseActionList", "cannot resolve")
+		return
+	}
+	// lengths of FindString results, classified by whether the subject went through ToLower
+	type lenOf struct {
+		v       ssa.Value
+		lowered bool
+	}
+	var lens []lenOf
+	eachInstr(fn, func(in ssa.Instruction) {
+		call, ok := in.(*ssa.Call)
+		if !ok || calleeName(call.Common()) != "builtin.len" {
+			return
+		}
+		fs, ok := call.Call.Args[0].(*ssa.Call)
+		if !ok || !strings.HasSuffix(calleeName(fs.Common()), ".FindString") {
+			return
+		}
+		lowered := false
+		for w := range backwardSlice(fs.Call.Args[len(fs.Call.Args)-1], func(*ssa.CallCommon) bool { return true }, nil) {
+			if c2, ok := w.(*ssa.Call); ok && calleeName(c2.Common()) == "strings.ToLower" {
+				lowered = true
+			}
+		}
+		lens = append(lens, lenOf{call, lowered})
+	})
+	n := 0
+	eachInstr(fn, func(in ssa.Instruction) {
+		var idx ssa.Value
+		switch x := in.(type) {
+		case *ssa.Index:
+			idx = x.Index
+		case *ssa.Lookup:
+			idx = x.Index
+		default:
+			return
+		}
+		var off *lenOf
+		for i := range lens {
+			if !lens[i].lowered && lens[i].v == idx {
+				off = &lens[i]
+			}
+		}
+		if off == nil {
+			return
+		}
+		n++
+		guarded := false
+		eachInstr(fn, func(i2 ssa.Instruction) {
+			iff, ok := i2.(*ssa.If)
+			if !ok || !iff.Block().Dominates(in.Block()) || iff.Block() == in.Block() {
+				return
+			}
+			b, ok := iff.Cond.(*ssa.BinOp)
+			if !ok || (b.Op != token.EQL && b.Op != token.NEQ) {
+				return
+			}
+			for _, pr := range [][2]ssa.Value{{b.X, b.Y}, {b.Y, b.X}} {
+				if pr[0] != off.v {
+					continue
+				}
+				for _, lo := range lens {
+					if lo.lowered && lo.v == pr[1] {
+						guarded = true
+					}
+				}
+			}
+		})
+		r.check(guarded, fmt.Sprintf("%s:read #%d of the original spec at the name's length", relName(fn), n), in.Pos(), fn,
+			"the length was compared with that of the lower-cased name", "the original spec is indexed at the length of its leading name although the action was recognised on the lower-cased copy, whose name can have another length")
+	})
+	r.floor("reads of the original spec at the length of its leading name", n, 1)
+}
+
 // round9 runs the round-9 rules of a property (own and shared).
 func round9(c *Ctx, r *Report, prop string) {
 	switch prop {
@@ -1917,6 +2002,7 @@ func round9(c *Ctx, r *Report, prop string) {
 		c12r14(c, r) // the API key reaches the listener inside the popup unchanged
 		c16r20(c, r)
 	case "C17":
+		c17r26(c, r)
 		c17r24(c, r)
 		c17r25(c, r)
 	case "C19":
